@@ -438,6 +438,13 @@ func RunC03(c *Ctx, r *Report) {
 	r.TrustedBase = append(r.TrustedBase, "go/types and go/ssa (x/tools v0.29.0)", "the checker's bit-provenance and linear-form engines", "domain restrictions of the properties (attribute types < 2^15, versions <= 15, vendor id < 2^24)")
 	r.Assumptions = append(r.Assumptions, "messages lie in the encodable domain of the property (so every guarded narrowing conversion succeeds)")
 	r.NotDecided = append(r.NotDecided, "value-level equality for arbitrary field contents", "interaction of several payloads beyond the chain rule", "Delete SPI stride for SPI sizes other than 4 (outside the domain)")
+	c.plainCodecRules(r, prefix)
+}
+
+// plainCodecRules: the rule set of the plain codec round trip. Claimed by C03 and, under its own prefix, by
+// C01: a protected message comes back unchanged only if the header and the inner payload chain survive the
+// plain codec (EncodeEncrypt and DecodeDecrypt run Marshal/ParseHeader and the payload codecs inside).
+func (c *Ctx) plainCodecRules(r *Report, prefix string) {
 	w := c.slotWorld(r, prefix)
 	if w == nil {
 		return
